@@ -379,13 +379,21 @@ class ColorVisuals(Visuals):
         """
         Apply a mask to remove or duplicate vertex properties.
         """
+        # move colors a user edited in the cache into the store
+        self._verify_hash()
         self._update_key(mask, "vertex_colors")
+        # colors derived for the previous vertices are no longer valid
+        self._cache.clear()
 
     def update_faces(self, mask: ArrayLike):
         """
         Apply a mask to remove or duplicate face properties
         """
+        # move colors a user edited in the cache into the store
+        self._verify_hash()
         self._update_key(mask, "face_colors")
+        # colors derived for the previous faces are no longer valid
+        self._cache.clear()
 
     def face_subset(self, face_index: ArrayLike):
         """
